@@ -21,6 +21,7 @@ func init() {
 		Explanation: "R1 order (ESP on sev.LaunchDigest): measurement events occur in the order ROM (Update with the constant PageTypeNormal) → zero-content metadata pages → VMSA pages (Update with PageTypeVmsa); a nil return needs the ROM event; the ROM event's address operand is RomTop − len(image) and the VMSA events' address is ProductHighAddress of the options' product. " +
 			"R2 kind table: the mapping from OVMF section kind to SNP page type covers exactly the section-kind constants declared in ovmf/abi, maps them to {unmeasured, secret, cpuid, zero} respectively (constants checked by value) and rejects every other kind. " +
 			"R3 purity: no store / copy in the call closure of LaunchDigest and UnsignedSnp writes through the image parameter. " +
+			"R9 in package ovmf no integer read from a map without comma-ok is compared with 0 to decide presence (0 is a legitimate address; the duplicate CPUID/secrets test relies on presence). " +
 			"R3b no write in the closure of LaunchDigest / UnsignedSnp goes to a package-level variable (no shared scratch buffer or cache). " +
 			"R4 determinism: the closure of LaunchDigest calls no clock, random source or environment lookup and has no map iteration whose body extends the measurement. " +
 			"R6 declared order: every sort call in the call closure of LaunchDigest sorts a slice allocated in the same function (a copy), so the SNP metadata sections reach the measurement in the order the firmware declares them. " +
@@ -527,6 +528,64 @@ func runC04(c *Ctx) {
 		}
 	}
 	c.S.Floor("R2", "section-kind to page-type tables", 1, nTables)
+
+	// ---------------- R9 presence of an address is not tested by comparing it with zero ----------------
+	// In package ovmf (metadata validation), a value read from a map without the comma-ok form must not be compared
+	// with 0 to decide whether the key was seen: the maps hold guest-physical addresses taken from the image, and 0
+	// is a legitimate address (a CPUID or secrets page declared at address 0 would not count as "already seen", so
+	// a duplicate is accepted).
+	{
+		nLk, badLk := 0, 0
+		for _, f := range c.P.RepoFunctions() {
+			if load.RelPkg(f) != "ovmf" || c.isTestFunc(f) {
+				continue
+			}
+			for _, b := range f.Blocks {
+				for _, in := range b.Instrs {
+					lk, ok := in.(*ssa.Lookup)
+					if !ok {
+						continue
+					}
+					if _, isMap := lk.X.Type().Underlying().(*types.Map); !isMap {
+						continue
+					}
+					nLk++
+					if lk.CommaOk {
+						continue
+					}
+					bt, isBasic := lk.Type().Underlying().(*types.Basic)
+					if !isBasic || bt.Info()&types.IsInteger == 0 {
+						continue
+					}
+					for _, ref := range nonDebugRefs(lk) {
+						bo, ok := ref.(*ssa.BinOp)
+						if !ok || (bo.Op != token.NEQ && bo.Op != token.EQL) {
+							continue
+						}
+						k, isK := bo.Y.(*ssa.Const)
+						if bo.X != ssa.Value(lk) || !isK || !isZeroIntConst(k) {
+							continue
+						}
+						usedAsCond := false
+						for _, r2 := range nonDebugRefs(bo) {
+							switch r2.(type) {
+							case *ssa.If, *ssa.Phi, *ssa.BinOp, *ssa.UnOp:
+								usedAsCond = true
+							}
+						}
+						if usedAsCond {
+							badLk++
+							c.S.Bad("R9", load.FuncName(f)+":zero as absence", c.pos(bo.Pos()), "a map of image-supplied values is read without comma-ok and the result is compared with 0 to decide presence: a legitimately zero value (a page at guest-physical address 0) is taken for \"not seen\", so the duplicate / overlap test it guards does not fire")
+						}
+					}
+				}
+			}
+		}
+		c.S.Floor("R9", "map lookups in package ovmf", 1, nLk)
+		if badLk == 0 {
+			c.S.OK("R9", "ovmf:presence by comma-ok", "", fmt.Sprintf("%d map lookups, none uses zero as the absence marker", nLk), true)
+		}
+	}
 
 	// ---------------- R3 purity ----------------
 	for _, root := range []*ssa.Function{ld, us} {
